@@ -18,7 +18,10 @@ RULE = ("cases = max_packet_size in {1,3,64,1024} (thorough adds 2,8,512,1023) x
         "{0,1,mps-1,mps,mps+1,2mps-1,2mps,2mps+1,3mps-1,3mps} and uniform 0..3mps (a few > 3mps), 0..5 IN tokens per "
         "frame incl. IN tokens before the first SOF, tokens for other endpoints, tx.ready / stream.valid densities "
         "5..100%; 'sofchaos' cases put SOFs inside packets / together with requests (outside the theorems' "
-        "environment: model comparison only from that point on)")
+        "environment: model comparison only from that point on); 'tokdet' cases (monitor only): the endpoint behind "
+        "the real USBTokenDetector (wired as in USBDevice), host given as UTMI receive bytes: SOF packets whose frame "
+        "number repeats 1..8 times (microframes) and is 0 first in 3 of 4 cases, 0..5 IN tokens per (micro)frame, "
+        "bytes_in_frame changed only at a SOF; a frame = from the end of one well-formed SOF packet to the next")
 ASSUMPTIONS = ["max_packet_size >= 1",
                "a SOF (new_frame) arrives only between packets and not in the cycle of a request for this endpoint",
                "bytes_in_frame <= 3 * max_packet_size at every SOF (as documented for the port)"]
@@ -42,6 +45,13 @@ def gen_cases(tier, rng):
         for k in range(n):
             mode = "sofchaos" if k % 5 == 4 else "host"
             out.append({"mps": mps, "ep": rng.range(1, 15), "mode": mode, "cycles": cyc, "seed": rng.u64()})
+    # monitor-only cases behind the real USBTokenDetector; appended last so that the seeds above do not move
+    td = {"quick": [(1, 2, 900), (3, 3, 1200), (8, 3, 1500), (64, 2, 3000)],
+          "widen": [(1, 4, 900), (3, 6, 1200), (8, 6, 1500), (64, 4, 3000)],
+          }.get(tier, [(1, 8, 1200), (3, 10, 1500), (8, 10, 2000), (64, 8, 4000), (512, 3, 9000)])
+    for mps, n, cyc in td:
+        for k in range(n):
+            out.append({"mps": mps, "ep": rng.range(1, 15), "mode": "tokdet", "cycles": cyc, "seed": rng.u64()})
     return out
 
 
@@ -118,6 +128,32 @@ class Host:
 
 def needed(n, mps):
     return (n + mps - 1) // mps
+
+
+def judge_frames(frames, mps, fail, tags):
+    """Frame-level reading of the property: fr = {"N": bytes requested at the SOF, "events": [("D", pid, bytes) |
+    ("Z", pid, [])] in order}."""
+    for fr in frames:
+        n = fr["N"]
+        want_lens = [mps] * (n // mps) + ([n % mps] if n % mps else [])
+        ev = fr["events"]
+        data = [e for e in ev if e[0] == "D"]
+        seen_z = False
+        for e in ev:
+            if e[0] == "Z":
+                seen_z = True
+            elif seen_z:
+                fail(0, "data-after-zlp", "frame of %d bytes: a data packet follows a ZLP" % n)
+        lens = [len(e[2]) for e in data]
+        if lens != want_lens[:len(lens)]:
+            fail(0, "frame-split", "frame of %d bytes sent as packets of %s bytes, expected %s" % (n, lens, want_lens))
+        if seen_z and sum(lens) != n:
+            fail(0, "frame-bytes", "ZLP sent although only %d of %d frame bytes went out" % (sum(lens), n))
+        pids = [e[1] for e in data]
+        if pids != list(range(len(want_lens) - 1, -1, -1))[:len(pids)]:
+            fail(0, "pid-sequence", "frame of %d bytes: PIDs %s" % (n, pids))
+        if len(ev) > len(data):
+            tags.add("extra-token-zlp")
 
 
 def monitor(mps, ep, stim, rows):
@@ -217,33 +253,234 @@ def monitor(mps, ep, stim, rows):
         pass
     # ---- frame-level reading of the property (complete frames only)
     if not fails and phase != "chaos":
-        for fr in frames:
-            n = fr["N"]
-            want_lens = [mps] * (n // mps) + ([n % mps] if n % mps else [])
-            ev = fr["events"]
-            data = [e for e in ev if e[0] == "D"]
-            seen_z = False
-            for e in ev:
-                if e[0] == "Z":
-                    seen_z = True
-                elif seen_z:
-                    fail(0, "data-after-zlp", "frame of %d bytes: a data packet follows a ZLP" % n)
-            lens = [len(e[2]) for e in data]
-            if lens != want_lens[:len(lens)]:
-                fail(0, "frame-split", "frame of %d bytes sent as packets of %s bytes, expected %s" % (n, lens, want_lens))
-            if seen_z and sum(lens) != n:
-                fail(0, "frame-bytes", "ZLP sent although only %d of %d frame bytes went out" % (sum(lens), n))
-            pids = [e[1] for e in data]
-            if pids != list(range(len(want_lens) - 1, -1, -1))[:len(pids)]:
-                fail(0, "pid-sequence", "frame of %d bytes: PIDs %s" % (n, pids))
-            if len(ev) > len(data):
-                tags.add("extra-token-zlp")
+        judge_frames(frames, mps, fail, tags)
     tags.add("frames>=3" if len(frames) >= 3 else "frames<3")
     return fails, sorted(tags)
 
 
+# ---------------------------------------------------------------------------------------------------------------
+# 'tokdet' cases (monitor only): the endpoint behind the REAL USBTokenDetector, as USBDevice wires it.  The host is
+# described on the wire (UTMI receive bytes of SOF and IN token packets), so what "a frame" is comes from the
+# packets the host sent, not from a new_frame strobe the testbench made up.  High-speed hosts send eight SOFs with
+# the same frame number (one per microframe), and the first SOF after reset may carry number 0.
+TD_NAMES_IN = ["rx_active", "rx_valid", "rx_data", "tx_ready", "stream_valid", "stream_payload", "bytes_in_frame"]
+TD_NAMES_OUT = ["tx_valid", "tx_first", "tx_last", "tx_payload", "tx_pid_toggle", "stream_ready"]
+TD_RESPONSE_WAIT = 120          # cycles the host agent waits for the answer to an IN token (real code: < 10)
+
+
+def td_dut(mps, ep):
+    from amaranth import Elaboratable, Module
+    from luna.gateware.usb.usb2.packet import USBTokenDetector
+    from luna.gateware.interface.utmi import UTMIInterface
+    from luna.gateware.usb.usb2.endpoints.isochronous_stream_in import USBIsochronousStreamInEndpoint
+
+    class Top(Elaboratable):
+        def __init__(self):
+            self.utmi = UTMIInterface()
+            self.ep = USBIsochronousStreamInEndpoint(endpoint_number=ep, max_packet_size=mps)
+
+        def elaborate(self, platform):
+            m = Module()
+            m.submodules.tokenizer = tok = USBTokenDetector(utmi=self.utmi, filter_by_address=False)
+            m.submodules.ep = self.ep
+            m.d.comb += tok.interface.connect(self.ep.interface.tokenizer)
+            return m
+
+    return Top()
+
+
+class WireHost:
+    """Closed-loop host on the UTMI receive side: SOF packets (frame numbers repeated 1..8 times, number 0 first in
+    most cases), IN tokens for this / another endpoint, waits for the endpoint's packet to finish before the next
+    packet.  bytes_in_frame only changes in the first cycle of a SOF packet (so the value latched at that SOF is
+    unambiguous)."""
+
+    def __init__(self, rng, mps, ep):
+        from harness.common import usbref
+        self.u = usbref
+        self.r, self.mps, self.ep = rng, mps, ep
+        self.ready_p = rng.choice([100, 100, 90, 50, 20])
+        self.valid_p = rng.choice([100, 100, 90, 50, 5])
+        self.addr = rng.below(128)
+        self.frame_no = 0 if rng.chance(75) else rng.below(2048)
+        self.rep_left = 0
+        self.first = True
+        self.bif = 0
+        self.queue = [(0, 0, 0)] * rng.range(1, 4)
+        self.tokens_left = 0
+        self.wait = None            # None | ["start", n] | ["pkt"]
+        self.after = None
+        self.new_bif = None
+
+    def pick_bif(self):
+        r, m = self.r, self.mps
+        if r.chance(50):
+            v = r.choice([0, 1, m - 1, m, m + 1, 2 * m - 1, 2 * m, 2 * m + 1, 3 * m - 1, 3 * m])
+        else:
+            v = r.range(0, 3 * m)
+        return max(0, min(3 * m, v))
+
+    def next_packet(self):
+        r, u = self.r, self.u
+        if self.tokens_left > 0:
+            self.tokens_left -= 1
+            mine = r.chance(88)
+            e = self.ep if mine else (self.ep + r.range(1, 15)) % 16
+            pid = u.PID_IN if (mine or r.chance(60)) else u.PID_OUT
+            self.queue = list(u.render_rx(u.token_packet(pid, self.addr, e), r, gap_choices=(0, 0, 0, 1, 2)))
+            if mine:
+                self.after = ["start", TD_RESPONSE_WAIT]
+            else:
+                self.after = None
+                self.queue += [(0, 0, 0)] * r.range(2, 12)
+        else:
+            if self.first:
+                self.first = False
+                self.rep_left = r.range(1, 8)
+            elif self.rep_left <= 0:
+                self.frame_no = (self.frame_no + 1) % 2048 if r.chance(90) else r.below(2048)
+                self.rep_left = r.range(1, 8)
+            self.rep_left -= 1
+            self.queue = list(u.render_rx(u.sof_packet(self.frame_no), r, gap_choices=(0, 0, 0, 1, 2)))
+            self.queue += [(0, 0, 0)] * r.range(3, 8)
+            self.new_bif = self.pick_bif() if r.chance(80) else self.bif
+            self.tokens_left = r.weighted([(10, 0), (30, 1), (25, 2), (20, 3), (10, 4), (5, 5)])
+            self.after = None
+
+    def __call__(self, t, prev):
+        r = self.r
+        valid = prev[0] if prev else 0
+        rx = (0, 0, 0)
+        if self.wait is not None:
+            if self.wait[0] == "start":
+                if valid:
+                    self.wait = ["pkt"]
+                else:
+                    self.wait[1] -= 1
+                    if self.wait[1] <= 0:
+                        self.wait = None
+            if self.wait is not None and self.wait[0] == "pkt" and not valid:
+                self.wait = None
+                self.queue = [(0, 0, 0)] * r.range(1, 6)
+        if self.wait is None:
+            if not self.queue:
+                self.next_packet()
+            if self.new_bif is not None:
+                self.bif, self.new_bif = self.new_bif, None
+            rx = self.queue.pop(0)
+            if not self.queue and self.after is not None:
+                self.wait, self.after = self.after, None
+        return [rx[0], rx[1], rx[2], int(r.chance(self.ready_p)), int(r.chance(self.valid_p)), r.range(1, 255), self.bif]
+
+
+def td_monitor(mps, ep, stim, rows):
+    """Reads the property from the wire: a frame starts when a well-formed SOF packet ends; the bytes requested for it
+    are the bytes_in_frame value of that moment; every IN token for this endpoint is answered by one packet."""
+    from harness.common import usbref
+    fails, tags = [], set()
+
+    def fail(t, sig, what):
+        if not fails:
+            fails.append({"cycle": t, "sig": sig, "what": "mps=%d behind the token detector: %s" % (mps, what)})
+
+    frames = []
+    frame = None                 # frames before the first SOF are not judged
+    rx = None
+    cur = None                   # bytes of the data packet being transmitted
+    cur_pid = 0
+    tokens = answers = 0
+    last_no = None
+    for t, (i, o) in enumerate(zip(stim, rows)):
+        a, v, d, ready, sv, sp, bif = i
+        valid, first, last, payload, pid, sready = o
+        # ---- what the endpoint transmits
+        if cur is None:
+            if valid and first:
+                cur, cur_pid = [], pid
+            elif valid and last:
+                answers += 1
+                if frame is not None:
+                    frame["events"].append(("Z", pid, []))
+            elif valid:
+                fail(t, "tx-shape", "tx.valid without first or last outside a packet")
+        if cur is not None:
+            if not valid:
+                fail(t, "valid-dropped", "tx.valid low inside a packet (%d bytes sent)" % len(cur))
+                cur = None
+            else:
+                if payload != (sp if sv else 0):
+                    fail(t, "wrong-byte", "payload=%d, stream offers valid=%d payload=%d" % (payload, sv, sp))
+                if sready != ready:
+                    fail(t, "stream-ready", "stream.ready=%d but tx.ready=%d while sending" % (sready, ready))
+                if len(cur) >= mps:
+                    fail(t, "packet-too-long", "byte %d in a packet, max packet size %d" % (len(cur) + 1, mps))
+                if ready:
+                    cur.append(payload)
+                    if last:
+                        answers += 1
+                        if frame is not None:
+                            frame["events"].append(("D", cur_pid, cur))
+                        tags.add("td-full-packet" if len(cur) == mps else "td-short-packet")
+                        cur = None
+        if fails:
+            break
+        # ---- what the host sent
+        if rx is None:
+            if a:
+                rx = []
+        elif not a:
+            if len(rx) == 3 and usbref.pid_ok(rx[0]):
+                w = rx[1] | (rx[2] << 8)
+                if (w >> 11) == usbref.usb2_crc5(w & 0x7FF):
+                    p = rx[0] & 0xF
+                    if p == usbref.PID_SOF:
+                        if cur is not None:
+                            raise AssertionError("host agent sent a SOF inside a packet")
+                        if frame is not None:
+                            frame["tokens"] = tokens
+                            frame["answers"] = answers
+                            frames.append(frame)
+                        no = w & 0x7FF
+                        tags.add("td-sof-first-0" if last_no is None and no == 0 else
+                                 ("td-sof-same-number" if no == last_no else "td-sof-new-number"))
+                        last_no = no
+                        frame = {"N": bif, "events": [], "no": no, "t": t}
+                        tokens = answers = 0
+                        tags.add("td-N=0" if bif == 0 else "td-N>0")
+                    elif p == usbref.PID_IN and (w >> 7) & 0xF == ep:
+                        tokens += 1
+            rx = None
+        elif v:
+            rx.append(d)
+    if not fails:
+        judge_frames(frames, mps, fail, tags)
+        for fr in frames:
+            if fr["answers"] != fr["tokens"]:
+                fail(fr["t"], "td-answers", "frame %d (SOF ended at cycle %d): %d IN tokens for the endpoint, %d packets sent"
+                     % (fr["no"], fr["t"], fr["tokens"], fr["answers"]))
+            if sum(len(e[2]) for e in fr["events"]) == fr["N"] and fr["N"]:
+                tags.add("td-frame-complete")
+    tags.add("td-frames>=6" if len(frames) >= 6 else "td-frames<6")
+    return fails, sorted(tags)
+
+
+def run_tokdet(desc):
+    mps, ep = desc["mps"], desc["ep"]
+    top = td_dut(mps, ep)
+    itf = top.ep.interface
+    ins = [top.utmi.rx_active, top.utmi.rx_valid, top.utmi.rx_data, itf.tx.ready, top.ep.stream.valid,
+           top.ep.stream.payload, top.ep.bytes_in_frame]
+    outs = [itf.tx.valid, itf.tx.first, itf.tx.last, itf.tx.payload, itf.tx_pid_toggle, top.ep.stream.ready]
+    stim, rows = in_util.run(top, ins, outs, desc, lambda: WireHost(Rng(desc["seed"]), mps, ep), desc.get("cycles", 1500))
+    fails, tags = td_monitor(mps, ep, stim, rows)
+    tags += ["mode=tokdet", "mps=%d" % mps]
+    return Case([mps, ep], stim, [list(r) for r in rows], fails, tags, desc, TD_NAMES_IN, TD_NAMES_OUT, lean=False)
+
+
 def run_case(desc):
     from luna.gateware.usb.usb2.endpoints.isochronous_stream_in import USBIsochronousStreamInEndpoint
+    if desc.get("mode") == "tokdet":
+        return run_tokdet(desc)
     mps, ep = desc["mps"], desc["ep"]
     dut = USBIsochronousStreamInEndpoint(endpoint_number=ep, max_packet_size=mps)
     itf = dut.interface
